@@ -25,7 +25,13 @@ pub enum Personality {
     Priority { changes: u32, horizon: u32 },
     /// lowest task id first, never preempt (used for baselines)
     Fifo,
+    /// explicit decision list (schedule minimisation / replay): decision i runs task `choices[i]` if it is
+    /// runnable; `SCRIPT_STAY`, an exhausted list or a task that is not runnable fall back to the FIFO rule.
+    /// `data` are the values of the scheduler's random stream (timer expiries); afterwards every 4th poll fires.
+    Script { choices: Vec<u32>, data: Vec<u64> },
 }
+
+pub const SCRIPT_STAY: u32 = u32::MAX;
 
 pub struct SeededScheduler {
     pers: Personality,
@@ -36,6 +42,7 @@ pub struct SeededScheduler {
     prio: BTreeMap<usize, u64>,
     change_points: Vec<u64>,
     next_low: u64,
+    n_data: u64,
     /// digest of the sequence of (chosen task, |runnable|) decisions
     pub trace: Arc<Mutex<SchedTrace>>,
 }
@@ -46,6 +53,10 @@ pub struct SchedTrace {
     pub steps: u64,
     pub switches: u64,
     pub max_runnable: usize,
+    /// record the decisions (for schedule minimisation)
+    pub record: bool,
+    pub choices: Vec<u32>,
+    pub data: Vec<u64>,
 }
 
 impl SeededScheduler {
@@ -68,6 +79,7 @@ impl SeededScheduler {
             prio: BTreeMap::new(),
             change_points,
             next_low: 0,
+            n_data: 0,
             trace,
         }
     }
@@ -87,19 +99,24 @@ impl Scheduler for SeededScheduler {
         let ids: Vec<usize> = runnable.iter().map(|t| usize::from(t.id())).collect();
         let cur = current.map(usize::from);
         let cur_runnable = cur.map(|c| ids.contains(&c)).unwrap_or(false);
-        let choice = match &self.pers {
-            Personality::Fifo => {
-                if cur_runnable && !is_yielding {
-                    cur.unwrap()
-                } else {
-                    // lowest id other than a yielding current, if any
-                    let mut c: Vec<usize> = ids.iter().copied().filter(|i| !(is_yielding && Some(*i) == cur)).collect();
-                    if c.is_empty() {
-                        c = ids.clone();
-                    }
-                    *c.iter().min().unwrap()
+        let fifo = |ids: &Vec<usize>| -> usize {
+            if cur_runnable && !is_yielding {
+                cur.unwrap()
+            } else {
+                // lowest id other than a yielding current, if any
+                let mut c: Vec<usize> = ids.iter().copied().filter(|i| !(is_yielding && Some(*i) == cur)).collect();
+                if c.is_empty() {
+                    c = ids.clone();
                 }
+                *c.iter().min().unwrap()
             }
+        };
+        let choice = match &self.pers {
+            Personality::Fifo => fifo(&ids),
+            Personality::Script { choices, .. } => match choices.get((self.step - 1) as usize) {
+                Some(c) if *c != SCRIPT_STAY && ids.contains(&(*c as usize)) => *c as usize,
+                _ => fifo(&ids),
+            },
             Personality::Sticky { stick } => {
                 if cur_runnable && !is_yielding && self.rng.chance(*stick) {
                     cur.unwrap()
@@ -153,11 +170,24 @@ impl Scheduler for SeededScheduler {
         t.max_runnable = t.max_runnable.max(ids.len());
         t.digest.u64(choice as u64);
         t.digest.u64(ids.len() as u64);
+        if t.record {
+            t.choices.push(choice as u32);
+        }
         Some(TaskId::from(choice))
     }
 
     fn next_u64(&mut self) -> u64 {
-        self.data.next_u64()
+        let j = self.n_data;
+        self.n_data += 1;
+        let v = match &self.pers {
+            Personality::Script { data, .. } => data.get(j as usize).copied().unwrap_or(j),
+            _ => self.data.next_u64(),
+        };
+        let mut t = self.trace.lock().unwrap();
+        if t.record {
+            t.data.push(v);
+        }
+        v
     }
 }
 
